@@ -30,7 +30,7 @@ def FUNCTIONS():
 
 
 BOUNDS = {'threads': 'quick: 1 watcher x 1 updater (2 updates) and 2 watchers x 1 updater; thorough: 2 watchers x 2 updaters',
-          'preemptions': 'K <= 2 (quick) / 3 (thorough) preemptions at symbolic steps (0..40), statement-level yields inside the encoded functions, plus the choice of the next thread whenever the running one blocks or ends',
+          'preemptions': 'quick: K <= 2 preemptions for 1 watcher x 1 updater, K <= 1 plus two symbolic thread picks for 2 watchers x 1 updater; thorough: K <= 2 / 3; preemption steps range over every step of the run (runs are <= 35 steps), statement-level yields inside the encoded functions, plus the choice of the next thread whenever the running one blocks or ends',
           'watcher loop': '<= 3 snapshot/wait iterations'}
 STUBS = ['cooperative Lock/Event (vlib/seqz/prims.py) instead of threading; scheduler with virtual time',
          'WeakSet replaced by a plain set (watchers keep their events alive in the harness)']
@@ -109,7 +109,7 @@ def _run(nw, nu, updates, preempt, pick):
 @cond(timeout=900, split={'t0': range(2)})
 def c_one_watcher_one_updater(p0: int, t0: int, p1: int, t1: int, k0: int) -> bool:
   """
-  pre: 0 <= p0 <= 40 and 0 <= t0 <= 1 and p0 <= p1 <= 40 and 0 <= t1 <= 1
+  pre: 0 <= p0 <= 30 and 0 <= t0 <= 1 and p0 <= p1 <= 30 and 0 <= t1 <= 1
   pre: 0 <= k0 <= 1
   post: _
   """
@@ -117,13 +117,23 @@ def c_one_watcher_one_updater(p0: int, t0: int, p1: int, t1: int, k0: int) -> bo
 
 
 @cond(timeout=900, split={'t0': range(3)})
-def c_two_watchers_one_updater(p0: int, t0: int, p1: int, t1: int, k0: int) -> bool:
+def c_two_watchers_one_updater(p0: int, t0: int, k0: int, k1: int) -> bool:
   """
-  pre: 0 <= p0 <= 40 and 0 <= t0 <= 2 and p0 <= p1 <= 40 and 0 <= t1 <= 2
+  pre: 0 <= p0 <= 36 and 0 <= t0 <= 2
+  pre: 0 <= k0 <= 2 and 0 <= k1 <= 2
+  post: _
+  """
+  # one notification wakes every watcher registered before it (quick: one preemption + two thread picks)
+  return _run(2, 1, 1, [(p0, t0)], [k0, k1, 0, 0])
+
+
+@cond(tiers=('thorough',), timeout=3600, split={'t0': range(3), 't1': range(3), 'k0': range(3)})
+def c_two_watchers_one_updater_k2(p0: int, t0: int, p1: int, t1: int, k0: int) -> bool:
+  """
+  pre: 0 <= p0 <= 36 and 0 <= t0 <= 2 and p0 <= p1 <= 36 and 0 <= t1 <= 2
   pre: 0 <= k0 <= 2
   post: _
   """
-  # one notification wakes every watcher registered before it
   return _run(2, 1, 1, [(p0, t0), (p1, t1)], [k0, 0, 0, 0])
 
 
